@@ -1,4 +1,5 @@
 import Jwt.Lemmas.Builder
+import Jwt.Generated.JsonCalls
 import Jwt.Props.C11
 import Jwt.Props.C15
 /-!
@@ -204,5 +205,21 @@ example : Builder.new.cfg.mask = { iat := true } := by decide
 example : abs (baseClaims Builder.new.cfg 1234) N.iat = some (.int 1234) := by rfl
 example : ∃ H, headSetup (.obj [(N.alg, .int 3)]) .hs256 = .ok H ∧ abs H N.alg = some (.str [72, 83, 50, 53, 54]) ∧
     abs H N.typ = some (.str N.JWT) := ⟨_, by rfl, by rfl, by rfl⟩
+
+/-- **What the JSON oracle stands for** (generated from the library sources): the only places where libjwt turns
+text into a JSON tree or back, with the flags it passes. Token header and payload are printed by `write_js` with
+`JSON_SORT_KEYS | JSON_COMPACT` and nothing else (no precision, no ASCII escaping, no embedding), token segments
+are parsed with flags `0` (objects only, duplicates allowed by jansson's default, no NUL escapes), JWKS text with
+`JSON_DECODE_ANY`, JSON-typed sets with `JSON_REJECT_DUPLICATES`, JSON-typed gets with sorted keys and the
+caller's choice of compact or 4-space indentation. The model's `JsonCodec` and the harness's `jsonlib.py` are
+written for exactly this table; a flag added or dropped fails here at build time. -/
+theorem C10_json_calls :
+    Generated.jsonCalls = [("jwks.c", "__jwks_load_strn", "json_loadb", "JSON_DECODE_ANY"),
+      ("jwks.c", "jwks_load_fromfile", "json_load_file", "JSON_DECODE_ANY"),
+      ("jwks.c", "jwks_load_fromfp", "json_loadf", "JSON_DECODE_ANY"),
+      ("jwt-encode.c", "write_js", "json_dumps", "JSON_SORT_KEYS|JSON_COMPACT"),
+      ("jwt-setget.c", "jwt_get_json", "json_dumps", "var:JSON_COMPACT|JSON_INDENT(4)|JSON_SORT_KEYS"),
+      ("jwt-setget.c", "jwt_set_json", "json_loads", "var:JSON_REJECT_DUPLICATES"),
+      ("jwt-verify.c", "jwt_base64uri_decode_to_json", "json_loads", "0")] := by decide
 
 end Jwt.Props.C10
